@@ -394,11 +394,7 @@ class BeliefPropagationDecoder(BaseBlockDecoder[Union[LinearBlockCodeEncoder, LD
         soft_output = []
         for v_group in self.vc_group:
             members = len(v_group)
-            edges_list = list(itemgetter(*v_group)(self.marg_ec))
-            if members == 1:
-                edges = torch.stack(edges_list, dim=0).view(1, -1)
-            else:
-                edges = torch.stack(edges_list, dim=0)
+            edges = torch.stack([self.marg_ec[v_node] for v_node in v_group], dim=0)
             edges = edges.unsqueeze(0).repeat_interleave(batch_size, dim=0)
             cv_extended = cv.unsqueeze(1).repeat_interleave(members, dim=1)
             msg = cv_extended.gather(2, edges)
